@@ -395,6 +395,27 @@ Definition rollback_body (s : st) : st :=
             else s in
   set_valid false s1.
 
+(* Rollback whose synchronous PessimisticRollback did not complete for the keys [lost] (request lost, retry budget
+   exhausted; Rollback only logs the error): the part that completed is released, the rest is a release that stays
+   unfinished *)
+Definition rollback_body_l (lost : list key) (s : st) : st :=
+  let s1 := if pess s && committer s then
+              ka_close (if (cnt s =? 0)%Z then s
+                        else
+                          let thr := N.max (fu s) (cmaxc s) in
+                          let s' := set_store (run_task (TPessRb (minus (flags s) lost) thr) (store s)) s in
+                          match filter (fun k => memk k lost) (flags s) with
+                          | [] => s'
+                          | rest => add_task (TPessRb rest thr) s'
+                          end)
+            else s in
+  set_valid false s1.
+
+Definition rollback_l (lost : list key) (s : st) : st :=
+  if negb (valid s) then s
+  else if pending s then set_valid false s
+  else rollback_body_l lost (agg_cancel s).
+
 Definition rollback (s : st) : st :=
   if negb (valid s) then s
   else if pending s then set_valid false s       (* "aggressive locking is pending": closes, no clean-up *)
@@ -473,6 +494,7 @@ Inductive ev :=
 | EAggStart | EAggRetry | EAggCancel | EAggDone
 | ECommit (o : commit_out)
 | ERollback
+| ERollbackLost (lost : list key)    (* Rollback whose synchronous release of [lost] never completed *)
 | ERun (n : nat)                      (* the n-th pending background task runs to completion *)
 | ERunSome (n : nat) (ks : list key). (* ... finishes the batches holding [ks] only (region error / re-batching: the rest is retried later) *)
 
@@ -508,6 +530,7 @@ Definition step (s : st) (e : ev) : st :=
   | EAggDone => agg_done s
   | ECommit o => commit o s
   | ERollback => rollback s
+  | ERollbackLost lost => rollback_l lost s
   | ERun n => run_nth n s
   | ERunSome n ks => run_some n ks s
   end.
